@@ -742,6 +742,52 @@ def thread_race_witness(chk: core.Check) -> None:
                 pass
 
 
+def many_unfinished(chk: core.Check, n: int) -> None:
+    """Scale scenario: a cached client whose study has `n` (> 999, SQLite's classic bound-variable limit) unfinished
+    trials BELOW its finished-trial watermark.  The incremental read then carries a long `included_trial_ids` list (the
+    code has a special path for lists the database refuses); every one of those trials must still be refreshed - the
+    oldest and the newest of them are changed by another client and must be seen, ordered by number."""
+    import optuna
+    from optuna.storages import RDBStorage, _CachedStorage
+    from optuna.study import StudyDirection
+    from optuna.trial import TrialState
+
+    url = fresh_sqlite_url(chk.tmp)
+    raw = RDBStorage(url)
+    cached = _CachedStorage(RDBStorage(url))
+    _no_fsync(raw)
+    sa = raw.create_new_study([StudyDirection.MINIMIZE], "A")
+    sb = raw.create_new_study([StudyDirection.MINIMIZE], "B")
+    ids = []
+    for i in range(n):
+        ids.append(raw.create_new_trial(sa))
+        if i % 50 == 0:
+            raw.create_new_trial(sb)  # the two studies share the id space
+    last = raw.create_new_trial(sa)
+    raw.set_trial_state_values(last, TrialState.COMPLETE, [1.0])  # a later trial finishes first: the watermark passes all of them
+    first_view = cached.get_all_trials(sa, deepcopy=False)
+    if [t.number for t in first_view] != list(range(n + 1)):
+        chk.violation({"kind": "stale-or-misordered", "scenario": "many-unfinished"}, {"n": n}, "cached client: first read of %d trials is not ordered 0..%d" % (n + 1, n))
+        return
+    changed = {ids[0]: TrialState.COMPLETE, ids[1]: TrialState.FAIL, ids[n // 2]: TrialState.PRUNED, ids[-1]: TrialState.COMPLETE}
+    for tid, st in changed.items():
+        raw.set_trial_state_values(tid, st, [0.5] if st == TrialState.COMPLETE else None)
+    raw.set_trial_user_attr(ids[2], "k", "v")
+    for states in (None, (TrialState.COMPLETE,), (TrialState.RUNNING,)):
+        got = cached.get_all_trials(sa, deepcopy=False, states=states)
+        want = raw.get_all_trials(sa, deepcopy=False, states=states)
+        g = [(t.number, t.state.name, t.values, dict(t.user_attrs)) for t in got]
+        w = [(t.number, t.state.name, t.values, dict(t.user_attrs)) for t in want]
+        chk.case({"part": "many-unfinished", "n": n, "states": None if states is None else [int(x.value) for x in states]}, nontrivial=True)
+        chk.count("many-unfinished")
+        if g != w:
+            diff = [(a, b) for a, b in zip(g, w) if a != b][:3]
+            chk.violation({"kind": "stale-or-misordered", "scenario": "many-unfinished"}, {"n": n, "first_differences": [[list(map(str, a)), list(map(str, b))] for a, b in diff]},
+                          "cached client with %d unfinished trials below its watermark: get_all_trials(states=%s) differs from the database at that moment: cache %s / database %s" % (
+                              n, states, diff[0][0] if diff else len(g), diff[0][1] if diff else len(w)))
+            return
+
+
 def search(chk: core.Check) -> None:
     chk.search_log.append("searching more and longer multi-client histories for a read that differs from the database")
     explore(chk, 200, (25, 70))
@@ -757,6 +803,7 @@ def main(chk: core.Check) -> int:
         replay_witnesses(chk)
         thread_race_witness(chk)
         explore(chk, 300 if quick else 4000, (10, 40) if quick else (10, 110))
+        many_unfinished(chk, 1100 if quick else 33500)  # beyond 999 / 32766 bound variables
     except core.DriverBroken as e:
         chk.broke("correspondence", {"driver": str(e)[:800]})
     chk.assumptions += [
@@ -771,6 +818,13 @@ def main(chk: core.Check) -> int:
 
 def replay(chk: core.Check, path: str) -> int:
     w = json.load(open(path))["witness"]
+    if "ops" not in w and "n" in w:
+        many_unfinished(chk, int(w["n"]))
+        if chk.violations:
+            print("REPRODUCED: %s" % chk.violations[0].get("message", "many-unfinished scenario"))
+            return 1
+        print("not reproduced")
+        return 0
     core.ensure_driver()
     drv = core.Driver("cache")
     try:
